@@ -39,6 +39,7 @@ type monitors struct {
 	leadersSeen  map[int64]map[int64]string   // shard -> term -> node observed LEADER
 	nodeTerm     map[string]map[int64]int64   // node -> shard -> last observed term
 	blReq        map[string]*proto.BecomeLeaderRequest
+	blResp       map[string]map[string]*proto.EntryId // BecomeLeader call id -> NewTerm responders known at send time
 
 	// C04
 	fences map[string]map[int64]*fenceInfo // node -> shard -> fence
@@ -56,7 +57,7 @@ type monitors struct {
 func newMonitors(c *chaos) *monitors {
 	return &monitors{c: c, storedTerm: map[int64]int64{}, storedMeta: map[int64]model.ShardMetadata{}, sentTermMax: map[int64]int64{},
 		ntReq: map[string]*proto.NewTermRequest{}, ntResp: map[int64]map[int64]map[string]*proto.EntryId{},
-		leadersSeen: map[int64]map[int64]string{}, nodeTerm: map[string]map[int64]int64{}, blReq: map[string]*proto.BecomeLeaderRequest{},
+		leadersSeen: map[int64]map[int64]string{}, nodeTerm: map[string]map[int64]int64{}, blReq: map[string]*proto.BecomeLeaderRequest{}, blResp: map[string]map[string]*proto.EntryId{},
 		fences: map[string]map[int64]*fenceInfo{}, streamTerm: map[string]int64{}, streamShard: map[string]int64{},
 		tagTerm: map[string]int64{}, checkedLeaders: map[string]bool{}}
 }
@@ -151,7 +152,7 @@ func (m *monitors) tap(t *TapMsg) {
 		m.blReq[t.CallID] = req
 		m.clearFence(t.Dst, req.Shard, req.Term)
 		if t.Src == "coord" {
-			m.checkBecomeLeader(t.Dst, req)
+			m.checkBecomeLeader(t.Dst, req, m.blResp[t.CallID])
 		}
 	case t.Kind == "req" && strings.HasSuffix(meth, "/DeleteShard"):
 		req := &proto.DeleteShardRequest{}
@@ -209,6 +210,16 @@ func (m *monitors) tapSent(t *TapMsg) {
 	m.mu.Lock()
 	defer m.mu.Unlock()
 	switch {
+	case t.Kind == "req" && strings.HasSuffix(t.Method, "/BecomeLeader") && t.Src == "coord":
+		// what the coordinator had received when it decided (send time, not delivery time)
+		req := &proto.BecomeLeaderRequest{}
+		if pb.Unmarshal(t.Payload, req) == nil {
+			snap := map[string]*proto.EntryId{}
+			for n, h := range m.ntResp[req.Shard][req.Term] {
+				snap[n] = h
+			}
+			m.blResp[t.CallID] = snap
+		}
 	case t.Kind == "resp" && strings.HasSuffix(t.Method, "/NewTerm"):
 		req := m.ntReq[t.CallID]
 		if req == nil || (t.Status != nil && t.Status.Code() != codes.OK) {
@@ -330,7 +341,7 @@ func compareLogs(a, b wal.Wal, after, upTo int64) string {
 }
 
 // checkBecomeLeader: C05 (e).  mu held.
-func (m *monitors) checkBecomeLeader(dst string, req *proto.BecomeLeaderRequest) {
+func (m *monitors) checkBecomeLeader(dst string, req *proto.BecomeLeaderRequest, resp map[string]*proto.EntryId) {
 	sm, ok := m.storedMeta[req.Shard]
 	if !ok {
 		return
@@ -340,7 +351,9 @@ func (m *monitors) checkBecomeLeader(dst string, req *proto.BecomeLeaderRequest)
 	for _, s := range sm.Ensemble {
 		ens[s.GetIdentifier()] = true
 	}
-	resp := m.ntResp[req.Shard][req.Term]
+	if resp == nil {
+		resp = m.ntResp[req.Shard][req.Term]
+	}
 	fenced := 0
 	for n := range resp {
 		if ens[n] {
